@@ -106,7 +106,7 @@ def worker(kp, job):
 def run(chk):
     b = core.standard_build(chk)
     model = core.Model() if b.modelrun_ok else None
-    full = chk.tier == 'thorough' or bool(b.drift) or not b.proof_ok
+    full = chk.tier == 'thorough' or bool(b.drift) or not b.proof_ok or not b.modelrun_ok
     n = core.budget(chk, full, 40, 300)
     chk.rule = ('generated **kern scores of C07\'s core domain (2-6 measures, with / without opening barline, comments) cut at '
                 'sets of barline positions (0..5 cuts, up to 4 sets per size) into 1..6 fragments, separators newline and empty, fragments with and without a final line end; '
